@@ -25,6 +25,9 @@ import (
 // listenUDP configures a socket with SO_REUSEPORT and returns a UDP
 // net.PacketConn.
 func listenUDP(addr string, conf net.ListenConfig) (net.PacketConn, error) {
+	if verifListenUDP != nil {
+		return verifListenUDP(addr)
+	}
 	return conf.ListenPacket(context.Background(), "udp", addr)
 }
 
@@ -32,6 +35,13 @@ func listenUDP(addr string, conf net.ListenConfig) (net.PacketConn, error) {
 // create an unencrypted, monitored TLS net.Listener. The monitor sends
 // connection metrics to fb303.
 func listenTCP(addr string, conf net.ListenConfig, stats *metrics.Stats) (*Monitor, error) {
+	if verifListenTCP != nil {
+		l, err := verifListenTCP(addr)
+		if err != nil {
+			return nil, err
+		}
+		return NewMonitor(l, monitorTCP, stats), nil
+	}
 	list, err := conf.Listen(context.Background(), "tcp", addr)
 	if err != nil {
 		return nil, err
